@@ -65,6 +65,8 @@ extern char vh_san_desc[128];     /* filled by the sanitizer error hook when ava
    preceded by a PROT_NONE page too when N is a multiple of the page size */
 void *vh_guard_alloc (size_t n);
 void vh_guard_free (void *p, size_t n);
+/* a heap block of n bytes followed by previously used heap (0xEE residue): realloc up to cap bytes keeps the address */
+void *vh_inplace_alloc (size_t n, size_t cap);
 int vh_is_guard_block (const void *p);
 /* string copied so that its NUL is the last accessible byte */
 char *vh_guard_str (const char *s, size_t n);
@@ -86,7 +88,7 @@ typedef void (*vh_request_cb) (int kind, size_t n);
 extern vh_request_cb vh_on_request;  /* called when the library asks the allocator for memory (malloc/calloc 'm', realloc 'r'), before the answer */
 typedef void (*vh_map_cb) (int kind, void *addr, size_t len);
 extern vh_map_cb vh_on_map;          /* 'M' after every successful mmap, 'U' before every munmap (armed or not) */
-struct vh_blk { void *p; size_t n; int kind; int live; int by_lib; };
+struct vh_blk { void *p; size_t n; int kind; int live; int by_lib; size_t cap; };   /* cap > 0: realloc up to cap bytes extends the block in place */
 extern struct vh_blk vh_ledger[512];
 extern int vh_nledger;
 extern long vh_bad_free;             /* frees of pointers not in the ledger (while armed) */
